@@ -42,7 +42,7 @@ def install(dom):
     dom.lib["ndarray.todense"] = m_identity
 
 
-def prog(n, pattern):
+def prog(n, pattern, old_free=None):
     def p(run):
         it, dom = session(run, user_may_raise=False)
         install(dom)
@@ -58,7 +58,12 @@ def prog(n, pattern):
         c = run.alloc(ND((1,), [0.0]), "caller")
         snap = snapshot(run, (x, g, xc, L, U, c))
         cover(run, f"SUBSPACE[n={n},{pattern}]::requires_satisfiable")
-        fv, Z, A = it.call(it.lookup("subspacemin.get_freev"), [xc, L, U, 0, None, -1, None], {})
+        if old_free is None:
+            fv, Z, A = it.call(it.lookup("subspacemin.get_freev"), [xc, L, U, 0, None, -1, None], {})
+        else:
+            # a later iteration: the previous free set is passed (it may only influence the display)
+            prev = run.alloc(ND((len(old_free),), list(old_free)), "caller")
+            fv, Z, A = it.call(it.lookup("subspacemin.get_freev"), [xc, L, U, 3, prev, Sym(run.fresh("iprint", I)), None], {})
         tagf = f"subspacemin.get_freev[n={n}]"
         free = ent(run, fv)
         okint = all(isinstance(i, int) for i in free)
@@ -115,11 +120,24 @@ def prog(n, pattern):
         def model(z):
             return sum((gs[i] * (z[i] - xs[i]) + theta / 2 * (z[i] - xs[i]) * (z[i] - xs[i]) for i in range(n)),
                        z3.RealVal(0))
-        mb, mc = model([zreal(v) for v in xb]), model(cs)
-        run.oblige(tag + "::ensures::model_nonincrease", mb <= mc, P)
-        run.oblige(tag + "::ensures::descent_direction",
-                   z3.Implies(mc < 0, sum((gs[i] * (zreal(xb[i]) - xs[i]) for i in range(n)), z3.RealVal(0)) < 0),
-                   P + ("C01",))
+        # model non-increase as a lemma over the contracts (no path condition): ANY point of the form
+        # xc + a * Z d with the exact restricted Newton direction d and 0 <= a <= 1, active variables unchanged, has a
+        # model value <= m(xc); `newton_truncated` and `active_fixed` above show that xbar is such a point.
+        from pyvc.sym import Obligation
+        aa = run.fresh("a_lem", R)
+        zl = [cs[i] + aa * dnew[i] if i in dnew else cs[i] for i in range(n)]
+        run.obls.append(Obligation(tag + "::lemma::model_nonincrease", [theta > 0, aa >= 0, aa <= 1],
+                                   model(zl) <= model(cs), P, "z3", run.site, None, list(run.decisions)))
+        # descent lemma, a formula over the contracts only (no path condition needed): with B = theta I positive
+        # definite, m(xbar) <= m(xc) < 0  =>  g.(xbar - x) < 0.  model_nonincrease above supplies the first premise and
+        # C08's model_decrease the second.
+        zb = [run.fresh(f"z{i}", R) for i in range(n)]
+        mz = model(zb)
+        mcv = run.fresh("m_xc", R)
+        lem = z3.Implies(z3.And(mz <= mcv, mcv < 0),
+                         sum((gs[i] * (zb[i] - xs[i]) for i in range(n)), z3.RealVal(0)) < 0)
+        run.obls.append(Obligation(tag + "::lemma::descent_direction", [theta > 0], lem, P + ("C01",), "z3", run.site,
+                                   None, list(run.decisions)))
         run.oblige(tag + "::frame::arguments_untouched", untouched(run, (x, g, xc, L, U, c), snap), P + ("C14",),
                    backend="frame")
         run.oblige(tag + "::ensures::result_fresh", xbar.ref not in (x.ref, xc.ref, g.ref, L.ref, U.ref), P + ("C14",),
@@ -128,8 +146,9 @@ def prog(n, pattern):
 
 
 def _work(args):
-    n, pat, keep = args
-    return run_program(f"SUBSPACE[n={n},{pat}]", prog(n, pat), mode="real", keep_smt=keep, timeout_ms=60000)
+    n, pat, keep, old = args
+    return run_program(f"SUBSPACE[n={n},{pat},old_free={old}]", prog(n, pat, old), mode="real", keep_smt=keep,
+                       timeout_ms=60000)
 
 
 def run_unit(tier="quick", procs=16):
@@ -141,7 +160,11 @@ def run_unit(tier="quick", procs=16):
         pats = list(itertools.product(sides, repeat=n)) if n <= 2 else \
             [tuple([(True, True)] * 3), ((True, True), (True, False), (False, False))]
         for pat in pats:
-            jobs.append((n, pat, 1 if (n == 2 and pat == ((True, True), (True, True))) else 0))
+            jobs.append((n, pat, 1 if (n == 2 and pat == ((True, True), (True, True))) else 0, None))
+        # previous free sets (iteration > 0): every subset at n <= 2, a few at n = 3
+        olds = [tuple(c) for k in range(n + 1) for c in itertools.combinations(range(n), k)]
+        for old in (olds if n <= 2 else olds[:4]):
+            jobs.append((n, tuple([(True, True)] * n), 0, old))
     with mp.Pool(min(procs, len(jobs))) as pool:
         for r in pool.imap_unordered(_work, jobs):
             rep.merge(r)
